@@ -333,7 +333,7 @@ for _sc in range(4):
       defs=["-DGM_SCEN=%d" % _sc, "-Dh_u_genmerge_b=h_u_genmerge_b_%d" % _sc], mem=30, tiers=())
 
 # move on nested documents (incl. "moving a value into its own child", named by C16)
-for _sc in (0, 1, 2, 3, 4):
+for _sc in (0, 1, 2, 3, 4, 5, 6):
     U("u_ap_nested_b_%d" % _sc, "both", "harness/u_ap_nested_b.c", no_contract=True, shape="B", bound="ONE concrete nested document and patch (scenario %d, see harness: moves across nesting levels, operations on array elements); scenarios 1 and 3 with a symbolic value" % _sc,
       funcs=_AP_F, props=["C16"], covers=1, unwind=8, unwindset=_AP_UW + ["mkstr.0:9", "healthy.0:6"], timeout=(600, 1800),
       defs=["-DAN_SCEN=%d" % _sc, "-Dh_u_ap_nested_b=h_u_ap_nested_b_%d" % _sc],
